@@ -836,6 +836,21 @@ def _where(c, x=None, y=None):
     return W(r) if isinstance(r, np.ndarray) else r
 
 
+@impl(np.isin)
+def _isin(element, test_elements, assume_unique=False, invert=False, **kw):
+    tests = [tor(x) for x in np.asarray(U(test_elements), dtype=object).ravel()]
+
+    def f(x):
+        x = tor(x)
+        r = SB(False)
+        for t in tests:
+            r = r | (x == t)          # NaN equals nothing, as in NumPy
+        return ~r if invert else r
+
+    r = elementwise(f, element)
+    return W(r) if isinstance(r, np.ndarray) else r
+
+
 @impl(np.nan_to_num)
 def _n2n(a, copy=True, nan=0.0, posinf=None, neginf=None):
     big = Fraction(np.finfo(np.float64).max)
